@@ -4,13 +4,13 @@
 # /repo) and the named checks' quick tier against the copy (expected: exit 1 + VIOLATION), then deletes the copy.
 set -u
 cd "$(dirname "$0")/.."
-S="$1"; shift
+S="$(readlink -f "$1")"; shift
 D=$(mktemp -d /tmp/seedeval_XXXX)
 rsync -a --exclude .git --exclude docs --exclude examples --exclude _trash --exclude 'tests/data' /repo/ "$D"/
-( cd "$D" && patch -p1 -s --no-backup-if-mismatch < "$OLDPWD/$S/patch.diff" ) || { echo "PATCH FAILED"; rm -rf "$D"; exit 3; }
+( cd "$D" && patch -p1 -s --no-backup-if-mismatch < "$S/patch.diff" ) || { echo "PATCH FAILED"; rm -rf "$D"; exit 3; }
 if [ -f "$S/demo.py" ]; then
-  ( cd /tmp && PYTHONPATH="$D" timeout 900 /venv/bin/python "$OLDPWD/$S/demo.py" > "$D.demo_mut.log" 2>&1 ); r1=$?
-  ( cd /tmp && PYTHONPATH=/repo timeout 900 /venv/bin/python "$OLDPWD/$S/demo.py" > "$D.demo_ok.log" 2>&1 ); r0=$?
+  ( cd /tmp && PYTHONPATH="$D" timeout 900 /venv/bin/python "$S/demo.py" > "$D.demo_mut.log" 2>&1 ); r1=$?
+  ( cd /tmp && PYTHONPATH=/repo timeout 900 /venv/bin/python "$S/demo.py" > "$D.demo_ok.log" 2>&1 ); r0=$?
   echo "demo: with change exit=$r1 (expected !=0), on /repo exit=$r0 (expected 0)"
 fi
 for c in "$@"; do
